@@ -55,6 +55,8 @@ def h_copy(n: int, c: int, k: int, probe: int, numtype='int32', bo='big', atom=(
     m1 = loader._mapping_dict(cp.metadata)
     if m1 != (md or {}):
         raise Violation('metadata of the copy differ', got=m1)
+    if (w.lookup('/w/cp/metadata.json') is None) != (w.lookup('/w/src/metadata.json') is None):
+        raise Violation('the copy has a metadata.json where the source has none (or the reverse)')
     array_view(w, '/w/src', numtype, gt_of(numtype, bo), atom, n, orig, probe, 'source after copy')
     # independence
     sref, sn = orig, n
@@ -116,6 +118,8 @@ def h_rcopy(l1: int, l2: int, l3: int, k: int, q: int, probe: int, K=1, numtype=
     check_handle_ragged(RA.RaggedArray('/w/cp'), cmodel, ename, egt, atom, q, probe, 'ragged copy')
     if loader._mapping_dict(cp.metadata) != (md or {}):
         raise Violation('metadata of the ragged copy differ')
+    if (w.lookup('/w/cp/metadata.json') is None) != (w.lookup('/w/src/metadata.json') is None):
+        raise Violation('the ragged copy has a metadata.json where the source has none (or the reverse)')
     try:
         decode_ragged(w, '/w/cp')
     except DecodeError as e:
@@ -236,6 +240,8 @@ def replay_c15(cex, d):
                 probs.append('copy values differ')
             if dict(cp.metadata) != (md or {}):
                 probs.append('metadata differ')
+            if os.path.exists(str(cp.path) + '/metadata.json') != os.path.exists(str(src.path) + '/metadata.json'):
+                probs.append('metadata.json exists in only one of source and copy')
             mut = fx['mutation']
             sref, cref = orig, ref
             if mut == 'append-src':
@@ -290,6 +296,8 @@ def replay_c15(cex, d):
                         break
             if dict(cp.metadata) != (md or {}):
                 probs.append('metadata differ')
+            if os.path.exists(str(cp.path) + '/metadata.json') != os.path.exists(str(src.path) + '/metadata.json'):
+                probs.append('metadata.json exists in only one of source and copy')
         else:
             n = min(int(fx['n']), 2000)
             p = tmp + '/dat.x'
